@@ -175,3 +175,10 @@ Theorem C15_pyramid_include_coord :
       forall z' u v, In_pyr p z' u v -> In_pyr r z' u v.
 Proof. exact py_include_coord_spec. Qed.
 Print Assumptions C15_pyramid_include_coord.
+
+Theorem C15_pyramid_include :
+  forall p q, wfp p -> wfp q ->
+    exists r, py_include_pyramid p q = Ok r /\ wfp r /\
+      forall z x y, In_pyr p z x y \/ In_pyr q z x y -> In_pyr r z x y.
+Proof. exact py_include_pyramid_spec. Qed.
+Print Assumptions C15_pyramid_include.
